@@ -17,6 +17,7 @@ type starEff struct {
 type effects struct {
 	all   bool
 	comps []string
+	freshOnly []string // components changed only at objects the callee allocated
 	stars []starEff // "*param" effects on pointer arguments: resolved by the caller (fresh object or not)
 }
 
@@ -35,6 +36,9 @@ func (p *Program) expandAssigns(fc *FuncContract) effects {
 	}
 	pkg := strings.SplitN(fc.ID, ".", 2)[0]
 	for _, a := range fc.Assigns {
+		if strings.HasPrefix(a, "fresh:") {
+			continue // only freshly allocated objects of this component change: see freshComps
+		}
 		switch {
 		case strings.HasPrefix(a, "*") && len(a) > 1:
 			// "*param": resolved at the call site (applyContract) / against parameter types (frame check)
@@ -70,10 +74,22 @@ func (p *Program) expandAssigns(fc *FuncContract) effects {
 
 func (p *Program) isPkgName(s string) bool { return p.pkgNames[s] }
 
+// freshComps: components of which the function only changes objects it allocated itself ("fresh:X").
+func freshComps(fc *FuncContract) []string {
+	var out []string
+	for _, a := range fc.Assigns {
+		if strings.HasPrefix(a, "fresh:") {
+			out = append(out, strings.TrimPrefix(a, "fresh:"))
+		}
+	}
+	return out
+}
+
 // contractEffectsAt: effects of a contracted callee at a call site, resolving "*param" entries
 // against the static (or MakeInterface-revealed) argument types.
 func (p *Program) contractEffectsAt(fc *FuncContract, callee *ssa.Function, c *ssa.CallCommon) effects {
 	eff := p.expandAssigns(fc)
+	eff.freshOnly = append(eff.freshOnly, freshComps(fc)...)
 	var args []ssa.Value
 	if c.IsInvoke() {
 		args = append(args, c.Value)
@@ -108,12 +124,21 @@ func (p *Program) contractEffectsAt(fc *FuncContract, callee *ssa.Function, c *s
 				}
 			case *types.Slice:
 				eff.comps = append(eff.comps, "E."+typeID(u.Elem())+".")
+			case *types.Interface:
+				// some object of unknown type changes: any H component, nothing else
+				eff.comps = append(eff.comps, "H.")
 			default:
 				eff.all = true
 			}
 		}
-		if !found {
+		if !found && a != "*self" {
 			eff.all = true
+		} else if !found && len(args) > 0 {
+			if pt, ok := args[0].Type().Underlying().(*types.Pointer); ok {
+				eff.stars = append(eff.stars, starEff{"H." + typeID(pt.Elem()) + ".", args[0]})
+			} else {
+				eff.comps = append(eff.comps, "H.")
+			}
 		}
 	}
 	return eff
@@ -321,8 +346,17 @@ func (e *Engine) call(fr *Frame, st *State, reach Term, site ssa.Instruction, c 
 	}
 	label := e.callLabel(id, callee, c)
 	// lock primitives
-	if r, ok := e.lockPrimitive(st, reach, id, args, label); ok {
-		return r, reach
+	if strings.HasPrefix(id, "sync.") {
+		e.curLockOwner = nil
+		if len(c.Args) > 0 && !c.IsInvoke() {
+			e.curLockOwner = e.resolveLockOwner(fr, st, c.Args[0])
+		}
+		if pre != nil && pre.instr != nil && len(pre.instr.Call.Args) > 0 {
+			e.curLockOwner = e.resolveLockOwner(pre.fr, st, pre.instr.Call.Args[0])
+		}
+		if r, ok := e.lockPrimitive(st, reach, id, args, label); ok {
+			return r, reach
+		}
 	}
 	if fc := e.P.lookupContract(id); fc != nil {
 		names := e.P.paramNames(fc, callee, c, len(args))
@@ -583,8 +617,17 @@ func (e *Engine) applyContract(fr *Frame, st *State, reach Term, fc *FuncContrac
 		} else if sl, ok := t.Underlying().(*types.Slice); ok {
 			objs = append(objs, objHavoc{pv.L[0], sl.Elem(), true})
 		} else if _, isIface := t.Underlying().(*types.Interface); isIface {
-			// dynamic type unknown: the object at that address changes, whatever its type
-			anyObjs = append(anyObjs, pv.L[1])
+			if e.P.isRepoInterface(t) {
+				// closed world: the object has one of the implementing types
+				for _, dt := range e.P.implementers(t) {
+					if pt, ok := dt.Underlying().(*types.Pointer); ok {
+						objs = append(objs, objHavoc{pv.L[1], pt.Elem(), false})
+					}
+				}
+			} else {
+				// dynamic type unknown: the object at that address changes, whatever its type
+				anyObjs = append(anyObjs, pv.L[1])
+			}
 		}
 	}
 	if eff.all {
@@ -592,6 +635,33 @@ func (e *Engine) applyContract(fr *Frame, st *State, reach Term, fc *FuncContrac
 		e.reassumeGlobals(st)
 	} else if len(eff.comps) > 0 {
 		st.havocPrefix(eff.comps, true)
+	}
+	if fcs := freshComps(fc); len(fcs) > 0 && !eff.all {
+		// the callee changes these components only at objects it allocated: everything the caller can name is unchanged
+		before := st.clone()
+		st.havocPrefix(fcs, true)
+		keep := func(name string, old, nw Term) {
+			if nw.S != old.S && strings.HasPrefix(string(nw.Sort), "(Array") {
+				e.assumes = append(e.assumes, T(SBool, "(forall ((fr Int)) (! (=> (<= fr (+ alloc0 1000000)) (= (select %s fr) (select %s fr))) :pattern ((select %s fr))))", nw, old, nw))
+			}
+		}
+		for name, old := range before.heap {
+			for _, fo := range fcs {
+				if strings.HasPrefix(name, fo) {
+					keep(name, old, st.comp(name, old.Sort))
+				}
+			}
+		}
+		ob := st.base
+		st.base = func(name string, sort Sort) Term {
+			nw := ob(name, sort)
+			for _, fo := range fcs {
+				if strings.HasPrefix(name, fo) {
+					keep(name, before.comp(name, sort), nw)
+				}
+			}
+			return nw
+		}
 	}
 	for _, ref := range anyObjs {
 		st.havocObject(ref)
@@ -644,17 +714,29 @@ func (e *Engine) applyContract(fr *Frame, st *State, reach Term, fc *FuncContrac
 	e.noOutside = false
 	results := splitResults(res)
 	isFresh := map[int]bool{}
+	freshLeaf := map[int]int{}
 	for _, k := range fc.Fresh {
 		if k < len(results) && len(results[k].L) >= 1 {
 			isFresh[k] = true
+			leaf := 0
+			if _, isIface := results[k].T.Underlying().(*types.Interface); isIface && len(results[k].L) == 2 {
+				leaf = 1
+			}
 			site, r := e.newSite(results[k].T)
-			e.reified[site] = true // the callee may have kept a reference
-			e.assume(reach, Eq(results[k].L[0], r))
+			if !fc.Pure {
+				e.reified[site] = true // the callee may have kept a reference
+			}
+			if leaf == 1 {
+				e.assume(reach, Or(Eq(results[k].L[0], IntLit(0)), Eq(results[k].L[1], r)))
+			} else {
+				e.assume(reach, Eq(results[k].L[0], r))
+			}
+			freshLeaf[k] = leaf
 		}
 	}
 	for k, r := range results {
 		for i, l := range Layout(r.T) {
-			if (l.Kind == kRef || l.Kind == kSlArr || l.Kind == kIfRef) && !(isFresh[k] && i == 0) {
+			if (l.Kind == kRef || l.Kind == kSlArr || l.Kind == kIfRef) && !(isFresh[k] && i == freshLeaf[k]) {
 				e.outsideRef(reach, r.L[i])
 			}
 		}
@@ -708,6 +790,7 @@ func (e *Engine) applyContract(fr *Frame, st *State, reach Term, fc *FuncContrac
 		env.bind = post
 		env.old = old
 		env.pkg = pkgOfID(fc.ID)
+		env.callSite = true
 		c, err := env.evalBool(en.E)
 		if err != nil {
 			e.contractError(en, err)
